@@ -122,6 +122,14 @@ def units():
                   "kind": "proof(every value read from the file unconstrained; loops over format strings unwound completely)",
                   "trusted": ["E1 model of psf_binheader_readf driven by the format string (destinations checked for the field / block size, filled with unconstrained bytes)",
                               "file length / position answers unconstrained"]})
+    # chunk-loop parsers: bounded stand-in (the file ends after N header reads; loops unwound completely under that bound)
+    for cname, fn, budget, extra in (("svx", "svx_read_header", 10, []), ("voc", "voc_read_header", 10, []), ("aiff", "aiff_read_header_h", 14, ["-DAIFF_WRAPPER", "-DLINKS_COMMON"]))[:(3 if os.environ.get("VERIF_WIP_AIFF") else 2)]:
+        U.append({"link_sources": (["common.c", "chunk.c", "strings.c", "float32.c", "double64.c"] if cname == "aiff" else []),
+                  "pre_gi_flags": (["--remove-function-body", "psf_log_printf"] if cname == "aiff" else []),"name": "parser.%s.bounded" % cname, "props": ["C03"], "harness": "parser.harness.c", "entry": "h_parser", "dfcc": False,
+                  "function": "%s.c:%s" % (cname, fn.replace("_h", "")), "defines": ["-DPARSER_FILE=\"%s.c\"" % cname, "-DREAD_FN=" + fn, "-DREAD_BUDGET=%d" % budget] + extra,
+                  "cbmc_flags": ["--object-bits", "9", "--unwind", str(budget + 3), "--unwindset", "strlen.0:260,strcmp.0:64"], "timeout": 900, "mem_gb": 24, "drop_flags": ["--signed-overflow-check"],
+                  "kind": "bounded(file ends after %d header reads; chunk loop unwound completely under that bound)" % budget, "tier": "thorough",
+                  "trusted": ["E1 model of psf_binheader_readf driven by the format string", "file length / position answers unconstrained until the end of file"]})
     # WAV length bookkeeping (DFCC): header writer and tailer
     for bw in (0, 2, 3):
         for ch in (1, 2):
